@@ -25,7 +25,7 @@ CLAIM = dict(
     text="Theorems in DarsiaProps.C19 about the executable model DarsiaModel.Patches (arrays as grids of base-image indices, numpy "
     "slicing as drop/take), for EVERY extent N, patch count n >= 1, overlap ov <= pv: pv_eq_ceil (the integer patch size the code computes is ceil(N/n) = the exact value of the "
     "former metric formula; n*pv >= N), assemble_patches_id (end to end: cs.ok, n > 0, 0 <= rel <= 1 imply assemble() of the axes the code derives is the identity), "
-    "corners_delimit_interior, centre_outside_patch_witness (negative; known finding), ov_le_pv, rel_roi_is_interior, interiors_partition (interiors concatenate to 0..N-1 for "
+    "corners_delimit_interior, hstack_rows_agree (guard of the model's hstack: equal row counts, so np.hstack's error path is never taken), centre_outside_patch_witness (negative; known finding), ov_le_pv, rel_roi_is_interior, interiors_partition (interiors concatenate to 0..N-1 for "
     "every pv with n*pv >= N), assemble_id (assemble() is the identity grid), patch_is_subimage, centres_voxel_physical_agree (the "
     "hard-coded centre layout is the base coordinate system; voxel centre = floor), corners_centres_agree_of_dvd, and the negative "
     "witness corners_voxel_physical_disagree_witness (n does not divide N; known finding). Round 2: patch_metadata (patch (i,j) as an IMAGE = the C02 sub-image theorem at rois[i][j]: "
@@ -261,21 +261,41 @@ def evaluate(d, cfg, want_tables=False):
                         fails.append(("C19:centre-voxel-outside-its-patch:dividing", f"patch ({i},{j}) axis {a}: centre voxel {int(gcv[i, j][a])} not in [{lo_}, {hi_})", {"patch": [i, j]}))
                     else:
                         fails.append((KNOWN_CENTRES, f"{NN} voxels in {cnt} patches, patch {idx}: advertised centre voxel {int(gcv[i, j][a])} lies outside the patch's interior [{lo_}, {hi_})", {"patch": [i, j], "axis": a}))
+            # corner order: top_left, bottom_left, bottom_right, top_right -> (row index i or i+1, column index j or j+1)
+            corner_ij = ((i, j), (i + 1, j), (i + 1, j + 1), (i, j + 1))
             for k in range(4):
-                c = call(cs.coordinate, [int(x) for x in kv[i, j][k]])
+                ci, cj = corner_ij[k]
+                # (1) each table against ITS OWN formula, independent of the implementation:
+                #     voxel corners: (ci*pv0 clipped to N0 when it is a lower/right corner, cj*pv1 likewise)
+                want_v = [ci * pv[0] if ci == i else min(N0, ci * pv[0]), cj * pv[1] if cj == j else min(N1, cj * pv[1])]
+                if [int(x) for x in kv[i, j][k]] != want_v:
+                    fails.append(("C19:global_corners_voxels!=formula", f"patch ({i},{j}) corner {k}: advertised voxel corner {kv[i, j][k].tolist()}, formula (i*pv, min(N, (i+1)*pv)) gives {want_v}", {"patch": [i, j], "corner": k}))
+                    continue
+                #     physical corners: origin + (cj * D1/n1, -ci * D0/n0)
+                want_c = [origin[0] + cj * D[1] / n1, origin[1] - ci * D[0] / n0]
+                g = [frac(float(x)) for x in kc[i, j][k]]
+                if abs(g[0] - want_c[0]) > tolx or abs(g[1] - want_c[1]) > toly:
+                    fails.append(("C19:global_corners_cartesian!=formula", f"patch ({i},{j}) corner {k}: advertised physical corner {[float(x) for x in g]}, origin + (j*D1/n1, -i*D0/n0) gives {[float(x) for x in want_c]}", {"patch": [i, j], "corner": k}))
+                    continue
+                # (2) the two tables against each other under the base coordinate system
+                c = call(cs.coordinate, want_v)
                 if isinstance(c, Raised):
                     fails.append(("C19:coordinate(global_corners_voxels):raises", repr(c), {"patch": [i, j]}))
                     continue
                 c = [frac(float(x)) for x in np.asarray(c)]
-                g = [frac(float(x)) for x in kc[i, j][k]]
                 # Cartesian x follows the column axis (1), y the row axis (0)
-                for comp, a, tol in ((0, 1, tolx), (1, 0, toly)):
-                    if abs(c[comp] - g[comp]) > tol:
-                        if cfg["N"][a] % cfg["n"][a] != 0:
-                            fails.append((KNOWN_CORNERS, f"{cfg['N'][a]} voxels in {cfg['n'][a]} patches: voxel corner {kv[i, j][k].tolist()} is at {float(c[comp])!r} but the physical corner is {float(g[comp])!r}", {"patch": [i, j], "corner": k}))
-                        else:
-                            fails.append(("C19:global_corners_voxels!=global_corners_cartesian:dividing",
-                                          f"patch ({i},{j}) corner {k} axis {a} ({cfg['N'][a]} voxels / {cfg['n'][a]} patches): voxel corner {kv[i, j][k].tolist()} is at {float(c[comp])!r}, physical corner {float(g[comp])!r}", {"patch": [i, j], "corner": k}))
+                for comp, a, tol, sgn_, vc, pc in ((0, 1, tolx, 1, want_v[1], cj), (1, 0, toly, -1, want_v[0], ci)):
+                    h_a = D[a] / cfg["N"][a]
+                    exact_gap = sgn_ * (vc - Fraction(pc * cfg["N"][a], cfg["n"][a])) * h_a  # (voxel corner - physical corner) in voxels, times h
+                    if abs((c[comp] - g[comp]) - exact_gap) > 2 * tol:
+                        fails.append(("C19:corner-gap!=exact-value", f"patch ({i},{j}) corner {k} axis {a}: coordinate(voxel corner) - physical corner = {float(c[comp] - g[comp])!r}, exactly expected {float(exact_gap)!r}", {"patch": [i, j], "corner": k}))
+                    elif exact_gap != 0 and abs(c[comp] - g[comp]) > tol:
+                        # both tables are what their formulas say and differ by exactly (voxel corner - i*N/n)*h != 0: only possible when n does not divide N
+                        if cfg["N"][a] % cfg["n"][a] != 0 or vc != pc * cfg["N"][a] // cfg["n"][a]:
+                            fails.append((KNOWN_CORNERS, f"{cfg['N'][a]} voxels in {cfg['n'][a]} patches: voxel corner {want_v} is at {float(c[comp])!r} but the physical corner is {float(g[comp])!r} (exact gap {float(exact_gap)!r})", {"patch": [i, j], "corner": k}))
+                    elif exact_gap == 0 and abs(c[comp] - g[comp]) > tol:
+                        fails.append(("C19:global_corners_voxels!=global_corners_cartesian:dividing",
+                                      f"patch ({i},{j}) corner {k} axis {a} ({cfg['N'][a]} voxels / {cfg['n'][a]} patches): voxel corner {want_v} is at {float(c[comp])!r}, physical corner {float(g[comp])!r}", {"patch": [i, j], "corner": k}))
     tables = None
     if want_tables and pieces_ok:
         tables = dict(p=p, img=img)
@@ -393,6 +413,9 @@ def image_patch_cases(ctx, d, lines, impl):
 def configs(ctx):
     rng = ctx.rng
     rels_dy, rels_gen = [0, 0.125, 0.25, 0.5], [0, 0.1, 0.25, 0.5]
+
+    def any_rel(regime):  # the quantifier's whole interval [0, 0.5]: dyadic k/64 on the dyadic stream, any float otherwise
+        return rng.randint(0, 32) / 64 if regime == "dyadic" else rng.uniform(0.0, 0.5)
     out = []
     if ctx.big:
         # every (extent, count) pair on each axis, paired with a random partner axis, x overlaps x regimes
@@ -401,7 +424,7 @@ def configs(ctx):
                 for k, rel in enumerate(rels_dy):
                     for regime in ("dyadic", "general"):
                         other = (rng.randint(1, 40), rng.randint(1, 6))
-                        rel_ = rel if regime == "dyadic" else rels_gen[k]
+                        rel_ = (rel if regime == "dyadic" else rels_gen[k]) if (N + n) % 3 else any_rel(regime)
                         swap = (N + n + k) % 2 == 0
                         NN, nn = ((N, other[0]), (n, other[1])) if swap else ((other[0], N), (other[1], n))
                         out.append(make_cfg(rng, NN, nn, rel_, regime, rng.random() < 0.3))
@@ -414,7 +437,7 @@ def configs(ctx):
             n = (rng.randint(1, 6), rng.randint(1, 6))
             if rng.random() < 0.35:  # force dividing counts often: that is where corners must agree
                 n = tuple(rng.choice([c for c in range(1, 7) if N[a] % c == 0]) for a in range(2))
-            rel = rng.choice(rels_dy if regime == "dyadic" else rels_gen)
+            rel = rng.choice(rels_dy if regime == "dyadic" else rels_gen) if k % 3 else any_rel(regime)
             out.append(make_cfg(rng, N, n, rel, regime, k % 5 == 0))
     return out
 
